@@ -348,9 +348,25 @@ class Interp:
             return r.v
         return None
 
+    # what the evaluation of a statement can meet that is a fact about the code (every index / value involved was
+    # computed, none assumed): reported as a defect with the statement's position, not as a limit of the analysis
+    _DEFINITE = {
+        "KEX: tensor index out of range": "an array of literal extent is indexed outside that extent (with boundscheck off: a silent read / write of foreign memory)",
+        "KEX: division by zero value": "a quotient whose denominator is identically zero for every input",
+    }
+
     def block(self, stmts):
         for st in stmts:
-            self.stmt(st)
+            try:
+                self.stmt(st)
+            except AnalysisError as e:
+                why = self._DEFINITE.get(str(e))
+                if why is None or isinstance(st, (ast.For, ast.While, ast.If, ast.With, ast.Try)):
+                    raise
+                from .core import DefectFound
+
+                raise DefectFound(self.module.rel if self.module else "?", self.fn.name, getattr(st, "lineno", self.fn.lineno), "definite fault: " + _short(st),
+                                  "`%s`: %s" % (_short(st), why))
 
     def err(self, node, msg):
         raise AnalysisError(
@@ -891,6 +907,8 @@ class Interp:
         self.err(node, "len() of unsupported value")
 
     def shape_of(self, arr, axis):
+        if isinstance(arr, (Arr, Tensor)) and arr.shape is not None and isinstance(axis, int) and not -len(arr.shape) <= axis < len(arr.shape):
+            raise AnalysisError("KEX: .shape[%d] of a %d-dimensional array" % (axis, len(arr.shape)))
         if isinstance(arr, Arr) and arr.shape is not None:
             return arr.shape[axis]
         if isinstance(arr, Tensor):
